@@ -181,7 +181,13 @@ func run(env *drive.Env) error {
 				}
 				nev0 = len(accused) // distinct validators accused about the parent round
 				kinds := map[string]bool{}
+				dberr := ""
 				hooks := &sd.BuildHooks{
+					Assembled: func(blk *types.Block, stateErr error) {
+						if stateErr != nil {
+							dberr = "state_error" // StateDB.Error(): a trie update failed while the roots were computed
+						}
+					},
 					AfterTx: func(i int, a *sd.ATx, r *sd.TxResult, st *state.StateDB, hdr *types.Header) {
 						if r.Refused {
 							kinds["refused"] = true
@@ -196,6 +202,7 @@ func run(env *drive.Env) error {
 						}
 						ev := builtFields(blk, rs)
 						ev["ev"], ev["blk"], ev["pe"], ev["nev"], ev["nev0"], ev["kinds"] = "Built", num, (num+1)%per == 0, nev, nev0, ks
+						ev["dberr"] = dberr
 						env.Emit(ev)
 						for k := 0; k < K; k++ {
 							r := rerun(w, w.A, blk, k, rnd)
@@ -223,8 +230,10 @@ func run(env *drive.Env) error {
 				imp["rcpt"], imp["logs"], imp["stat"] = short(types.DeriveSha(brs)), logsDigest(brs), statusDigest(brs)
 				_ = rs
 				env.Emit(imp)
-				if imp["err"] != "" {
-					return // chain B cannot follow any further
+				if imp["err"] != "" || dberr != "" {
+					// chain B cannot follow any further / the builder's state object reported a database error: what
+					// chain A builds on top of such a block is not meaningful
+					return
 				}
 			}
 		}()
